@@ -111,17 +111,24 @@ Definition unfreeze_maybe (ss : list (list pair)) (id : Z) : list (list pair) :=
 Record comp := mkComp {
   c_id : Z;
   c_state : Z;
-  c_sel : Z;              (* component->selected_pair.priority, 0 = nothing selected *)
+  c_sel : Z;              (* component->selected_pair.priority *)
+  c_sel_local : Z;        (* identity of component->selected_pair.local, 0 = NULL: no selected pair *)
+  c_sel_remote : Z;       (* identity of component->selected_pair.remote, 0 = NULL *)
   c_remote : bool         (* component->remote_candidates != NULL *)
 }.
 Definition st_CONNECTING := 2. Definition st_CONNECTED := 3. Definition st_READY := 4. Definition st_FAILED := 5.
-Definition set_cstate (c : comp) (s : Z) : comp := mkComp (c_id c) s (c_sel c) (c_remote c).
-Definition set_csel (c : comp) (s : Z) : comp := mkComp (c_id c) (c_state c) s (c_remote c).
+Definition set_cstate (c : comp) (s : Z) : comp := mkComp (c_id c) s (c_sel c) (c_sel_local c) (c_sel_remote c) (c_remote c).
+(* announcements are component states, or this code for the new-selected-pair signal *)
+Definition sg_SELECTED := 100.
+(* conn_check_update_selected_pair (component, pair) with nice_component_update_selected_pair (memset, then local / remote / priority of the
+   pair) and agent_signal_new_selected_pair; both callers pass a nominated pair (g_assert (pair->nominated)) *)
+Definition update_selected (c : comp) (p : pair) : comp * list Z :=
+  if c_sel c <? p_prio p then (mkComp (c_id c) (c_state c) (p_prio p) (p_local p) (p_remote p) (c_remote c), [sg_SELECTED]) else (c, []).
 (* returns the component and the announced states (nothing when new_state == old_state) *)
 Definition signal (c : comp) (n : Z) : comp * list Z := if c_state c =? n then (c, []) else (set_cstate c n, [n]).
 
 (** ** priv_prune_pending_checks (stream, component): returns in_progress + triggered_check and the new list.
-    (g_assert (component->selected_pair.priority > 0) is a precondition: [0 < sel].) *)
+    [prune] is the loop; [prune_chk] puts the g_assert (component->selected_pair.priority > 0) in front: None = the process aborts. *)
 Fixpoint prune (cid sel : Z) (l : list pair) : Z * list pair :=
   match l with
   | [] => (0, [])
@@ -137,19 +144,26 @@ Fixpoint prune (cid sel : Z) (l : list pair) : Z * list pair :=
       else (n, p :: r')
   end.
 
-(** ** conn_check_update_check_list_state_for_ready (stream, component): new list, component, announced states *)
-Definition count_nominated_valid (cid : Z) (l : list pair) : nat :=
-  length (filter (fun p => (p_comp p =? cid) && p_valid p && p_nom p) l).
+Definition prune_chk (cid sel : Z) (l : list pair) : option (Z * list pair) := if 0 <? sel then Some (prune cid sel l) else None.
+
+(** ** conn_check_update_check_list_state_for_ready (stream, component): new list, component, announcements; None = abort.
+    [best_nominated_valid] is the variable "best": the FIRST valid nominated pair of the component (nominated > 0 iff it exists).
+    Since e3eeaf1 it becomes the selected pair when there is none (selected_pair.local == NULL) before the pruning. *)
+Definition best_nominated_valid (cid : Z) (l : list pair) : option pair := find (fun p => (p_comp p =? cid) && p_valid p && p_nom p) l.
 Definition ready_progress (c : comp) : comp * list Z :=
   let '(c1, o1) := if (c_state c <? st_CONNECTING) || (c_state c =? st_FAILED) then signal c st_CONNECTING else (c, []) in
   let '(c2, o2) := if c_state c1 <? st_CONNECTED then signal c1 st_CONNECTED else (c1, []) in
   let '(c3, o3) := signal c2 st_READY in
   (c3, o1 ++ o2 ++ o3).
-Definition for_ready (l : list pair) (c : comp) : list pair * comp * list Z :=
-  match count_nominated_valid (c_id c) l with
-  | O => (l, c, [])
-  | S _ => let '(n, l') := prune (c_id c) (c_sel c) l in
-           if n =? 0 then let '(c', o) := ready_progress c in (l', c', o) else (l', c, [])
+Definition for_ready (l : list pair) (c : comp) : option (list pair * comp * list Z) :=
+  match best_nominated_valid (c_id c) l with
+  | None => Some (l, c, [])
+  | Some best =>
+      let '(c1, o0) := if c_sel_local c =? 0 then update_selected c best else (c, []) in
+      match prune_chk (c_id c) (c_sel c1) l with
+      | None => None
+      | Some (n, l') => if n =? 0 then let '(c', o) := ready_progress c1 in Some (l', c', o0 ++ o) else Some (l', c1, o0)
+      end
   end.
 
 (** ** priv_update_check_list_failed_components (stream): [disc] = agent->discovery_list != NULL;
@@ -213,47 +227,56 @@ Definition pair_fail (l : list pair) (id : Z) : list pair :=
 
 (* [rfc] = NICE_AGENT_IS_COMPATIBLE_WITH_RFC5245_OR_OC2007R2; [ctl] = agent->controlling_mode;
    [send_ok] = agent_socket_send succeeds.  Returns stun_sent, the streams, the announcements (stream index, component, state). *)
-Definition ordinary_check (rfc ctl send_ok : bool) (ss : list stream) (si : nat) : bool * list stream * list (nat * Z * Z) :=
+Definition ordinary_check (rfc ctl send_ok : bool) (ss : list stream) (si : nat) : option (bool * list stream * list (nat * Z * Z)) :=
   let '(sel, ls) := ordinary_select (map s_pairs ss) si in
   let ss1 := put_pairs ss ls in
   match sel, nth_error ss1 si with
   | Some p, Some s =>
-      if negb (s_creds s) then (false, ss1, [])
+      if negb (s_creds s) then Some (false, ss1, [])
       else
         (* priv_conn_check_initiate: IN_PROGRESS, then conn_check_send *)
         let l1 := update_id (p_id p) (fun q => set_state q InProgress) (s_pairs s) in
         let l2 := if negb rfc && ctl then update_id (p_id p) (fun q => set_nom q true) l1 else l1 in
         if send_ok then
           let l3 := update_id (p_id p) (fun q => set_retrans (set_stun q true) true) l2 in
-          (true, replace_nth si (set_pairs s l3) ss1, [])
+          Some (true, replace_nth si (set_pairs s l3) ss1, [])
         else
           (* priv_remove_stun_transaction of the only transaction, candidate_check_pair_fail, ...for_ready *)
           let l3 := pair_fail l2 (p_id p) in
           match find_comp (s_comps s) (p_comp p) with
-          | None => (false, replace_nth si (set_pairs s l3) ss1, [])
+          | None => Some (false, replace_nth si (set_pairs s l3) ss1, [])
           | Some c =>
-              let '(l4, c', o) := for_ready l3 c in
-              (false, replace_nth si (set_comps (set_pairs s l4) (update_comp (s_comps s) c')) ss1,
-               map (fun st => (si, c_id c, st)) o)
+              match for_ready l3 c with
+              | None => None
+              | Some (l4, c', o) =>
+                  Some (false, replace_nth si (set_comps (set_pairs s l4) (update_comp (s_comps s) c')) ss1,
+                        map (fun st => (si, c_id c, st)) o)
+              end
           end
-  | _, _ => (false, ss1, [])
+  | _, _ => Some (false, ss1, [])
   end.
 
 (* for (i = agent->streams; i && !stun_sent; i = i->next) stun_sent = priv_conn_check_ordinary_check (agent, stream);
    [ok si] = outcome of the send attempted for stream #si *)
-Fixpoint ordinary_agent_from (rfc ctl : bool) (ok : nat -> bool) (ss : list stream) (si : nat) (fuel : nat) : bool * list stream * list (nat * Z * Z) :=
+Fixpoint ordinary_agent_from (rfc ctl : bool) (ok : nat -> bool) (ss : list stream) (si : nat) (fuel : nat) : option (bool * list stream * list (nat * Z * Z)) :=
   match fuel with
-  | O => (false, ss, [])
+  | O => Some (false, ss, [])
   | S f =>
-      let '(sent, ss1, o) := ordinary_check rfc ctl (ok si) ss si in
-      if sent then (true, ss1, o)
-      else let '(sent', ss2, o') := ordinary_agent_from rfc ctl ok ss1 (S si) f in (sent', ss2, o ++ o')
+      match ordinary_check rfc ctl (ok si) ss si with
+      | None => None
+      | Some (sent, ss1, o) =>
+          if sent then Some (true, ss1, o)
+          else match ordinary_agent_from rfc ctl ok ss1 (S si) f with
+               | None => None
+               | Some (sent', ss2, o') => Some (sent', ss2, o ++ o')
+               end
+      end
   end.
 Definition ordinary_agent (rfc ctl : bool) (ok : nat -> bool) (ss : list stream) := ordinary_agent_from rfc ctl ok ss 0 (length ss).
 
 (** ** priv_mark_pair_nominated (stream, component, localcand, remotecand), with conn_check_update_selected_pair.
     The loop walks the links of stream->conncheck_list while its body may delete links (for_ready -> prune).
-    [None] = undefined behaviour of the C code: the link under the loop cursor itself was deleted and freed ("i = i->next" reads freed
+    [None] = the C code aborts (assertion of the pruning step) or has undefined behaviour: the link under the loop cursor itself was deleted and freed ("i = i->next" reads freed
     memory), or the discovered_pair pointer followed by the body dangles (its pair was deleted by an earlier pruning). *)
 Fixpoint after_id (id : Z) (l : list pair) : option (list pair) :=
   match l with
@@ -274,11 +297,14 @@ Definition mark_body (rfc : bool) (p : pair) (st : mstate) : option mstate :=
       let '(c2, o2) :=
         if p_valid t0 then
           let '(ca, oa) := if c_state c =? st_FAILED then signal c st_CONNECTING else (c, []) in
-          let cb := if c_sel ca <? p_prio t0 then set_csel ca (p_prio t0) else ca in     (* conn_check_update_selected_pair *)
+          let '(cb, ob) := update_selected ca t0 in
           let '(cc, oc) := if c_state cb =? st_CONNECTING then signal cb st_CONNECTED else (cb, []) in
-          (cc, oa ++ oc)
+          (cc, oa ++ ob ++ oc)
         else (c, []) in
-      if nom2 then let '(L3, c3, o3) := for_ready L2 c2 in Some (true, L3, c3, out ++ o2 ++ o3)
+      if nom2 then match for_ready L2 c2 with
+                   | None => None
+                   | Some (L3, c3, o3) => Some (true, L3, c3, out ++ o2 ++ o3)
+                   end
       else Some (res || hit, L2, c2, out ++ o2)
   end.
 Fixpoint mark_loop (rfc : bool) (lc rc : Z) (fuel : nat) (rest : list pair) (st : mstate) : option mstate :=
@@ -313,7 +339,8 @@ Inductive op :=
 Definition b2z (b : bool) : Z := if b then 1 else 0.
 Definition all_pairs (a : agent) : list (list pair) := map s_pairs (a_streams a).
 Definition tag (si : nat) (cid : Z) (o : list Z) : list (nat * Z * Z) := map (fun s => (si, cid, s)) o.
-(* result: return value, streams afterwards, component-state-changed signals in order; None = freed link read (see mark_loop) *)
+(* result: return value, streams afterwards, component-state-changed / new-selected-pair signals in order;
+   None = g_assert failure (abort) or freed memory read (see prune_chk, mark_loop) *)
 Definition run_op (o : op) (a : agent) : option (Z * list stream * list (nat * Z * Z)) :=
   let ss := a_streams a in
   match o with
@@ -324,8 +351,8 @@ Definition run_op (o : op) (a : agent) : option (Z * list stream * list (nat * Z
                end
   | OpUm id => Some (0, put_pairs ss (unfreeze_maybe (all_pairs a) id), [])
   | OpFw si => Some (match find_next_waiting (nth si (all_pairs a) []) with Some p => p_id p | None => 0 end, ss, [])
-  | OpOc si ok => let '(r, ss', sg) := ordinary_check (a_rfc a) (a_ctl a) ok ss si in Some (b2z r, ss', sg)
-  | OpOa oks => let '(r, ss', sg) := ordinary_agent (a_rfc a) (a_ctl a) (fun i => nth i oks true) ss in Some (b2z r, ss', sg)
+  | OpOc si ok => match ordinary_check (a_rfc a) (a_ctl a) ok ss si with Some (r, ss', sg) => Some (b2z r, ss', sg) | None => None end
+  | OpOa oks => match ordinary_agent (a_rfc a) (a_ctl a) (fun i => nth i oks true) ss with Some (r, ss', sg) => Some (b2z r, ss', sg) | None => None end
   | OpFc si => match nth_error ss si with
                | Some s => let '(cs, sg) := failed_components (a_disc a) (s_pairs s) (s_comps s) in
                            Some (0, replace_nth si (set_comps s cs) ss, map (fun x => (si, fst x, snd x)) sg)
@@ -333,15 +360,20 @@ Definition run_op (o : op) (a : agent) : option (Z * list stream * list (nat * Z
                end
   | OpPr si cid => match nth_error ss si with
                | Some s => match find_comp (s_comps s) cid with
-                           | Some c => let '(n, l) := prune cid (c_sel c) (s_pairs s) in Some (n, replace_nth si (set_pairs s l) ss, [])
+                           | Some c => match prune_chk cid (c_sel c) (s_pairs s) with
+                                       | Some (n, l) => Some (n, replace_nth si (set_pairs s l) ss, [])
+                                       | None => None
+                                       end
                            | None => Some (0, ss, [])
                            end
                | None => Some (0, ss, [])
                end
   | OpFr si cid => match nth_error ss si with
                | Some s => match find_comp (s_comps s) cid with
-                           | Some c => let '(l, c', sg) := for_ready (s_pairs s) c in
-                                       Some (0, replace_nth si (set_comps (set_pairs s l) (update_comp (s_comps s) c')) ss, tag si cid sg)
+                           | Some c => match for_ready (s_pairs s) c with
+                                       | Some (l, c', sg) => Some (0, replace_nth si (set_comps (set_pairs s l) (update_comp (s_comps s) c')) ss, tag si cid sg)
+                                       | None => None
+                                       end
                            | None => Some (0, ss, [])
                            end
                | None => Some (0, ss, [])
@@ -365,7 +397,8 @@ Definition pair_eqb (a b : pair) : bool :=
   (p_prio a =? p_prio b) && pstate_eqb (p_state a) (p_state b) && Bool.eqb (p_nom a) (p_nom b) && Bool.eqb (p_valid a) (p_valid b) &&
   Bool.eqb (p_usec a) (p_usec b) && Bool.eqb (p_mnora a) (p_mnora b) && Bool.eqb (p_retrans a) (p_retrans b) && Bool.eqb (p_stun a) (p_stun b) &&
   Bool.eqb (p_trig a) (p_trig b) && (p_disc a =? p_disc b).
-Definition comp_eqb (a b : comp) : bool := (c_id a =? c_id b) && (c_state a =? c_state b) && (c_sel a =? c_sel b) && Bool.eqb (c_remote a) (c_remote b).
+Definition comp_eqb (a b : comp) : bool :=
+  (c_id a =? c_id b) && (c_state a =? c_state b) && (c_sel a =? c_sel b) && (c_sel_local a =? c_sel_local b) && (c_sel_remote a =? c_sel_remote b) && Bool.eqb (c_remote a) (c_remote b).
 Definition stream_eqb (a b : stream) : bool := list_eqb pair_eqb (s_pairs a) (s_pairs b) && list_eqb comp_eqb (s_comps a) (s_comps b) && Bool.eqb (s_creds a) (s_creds b).
 Definition sig_eqb (a b : nat * Z * Z) : bool := Nat.eqb (fst (fst a)) (fst (fst b)) && (snd (fst a) =? snd (fst b)) && (snd a =? snd b).
 Definition result_eqb (x y : option (Z * list stream * list (nat * Z * Z))) : bool :=
